@@ -556,7 +556,9 @@ func (h *Haystack) HasNumber(raw string) bool {
 	// inside strings and keys the digits must stand on their own: a run of 7 digits in the middle of a
 	// pseudonym's 16 hex digits or of a base64 ciphertext is a coincidence, not the number
 	// (seen once: -6003959 against REDACTED_3e23e8160039594a, the pseudonym of the field "b")
-	alnum := func(c byte) bool { return c >= '0' && c <= '9' || c >= 'a' && c <= 'z' || c >= 'A' && c <= 'Z' || c == '+' || c == '/' }
+	alnum := func(c byte) bool {
+		return c >= '0' && c <= '9' || c >= 'a' && c <= 'z' || c >= 'A' && c <= 'Z' || c == '+' || c == '/'
+	}
 	for off := 0; ; {
 		i := strings.Index(h.all[off:], core)
 		if i < 0 {
